@@ -23,7 +23,7 @@ def run(tier, seed):
         return out
 
     return common.run_enum(PID, tier, seed, "MC_FileLayout", "prefix", ["FileLayout_q.cfg" if q else "FileLayout_t.cfg"],
-        [("FileLayout_w_%s.cfg" % c, "ignores_header:" + c) for c in CONSUMERS],
+        [("FileLayout_w_%s.cfg" % c, "ignores_header:" + c) for c in CONSUMERS] + [("FileLayout_w_naive.cfg", "naive_header_search")],
         actions=["Open", "FollowPrev", "ReadEntry", "ReadStream", "Scan"],
         rule="header positions from the spec's configuration ({0,1,7,512,1019} quick; every 0..1019 thorough) x generated files of 4 kinds (classic table, "
              "xref stream, two revisions with /Prev, object streams; indirect /Length, CRLF after `stream`) and x every corpus file incl. the encrypted fixtures; "
